@@ -21,6 +21,8 @@ type eqGen struct {
 	impls   map[string][]types.Type
 	allPkgs []*types.Package
 	imports map[string]string
+	strict  bool   // reflect.DeepEqual semantics (nil and empty differ, no wire normalisations)
+	prefix  string // function name prefix (default verifEq_)
 }
 
 func (g *eqGen) qual(p *types.Package) string {
@@ -43,7 +45,11 @@ func (g *eqGen) fn(t types.Type) string {
 	if n, ok := g.done[key]; ok {
 		return n
 	}
-	n := "verifEq_" + mangle(g.typeStr(t))
+	pf := g.prefix
+	if pf == "" {
+		pf = "verifEq_"
+	}
+	n := pf + mangle(g.typeStr(t))
 	g.done[key] = n
 	g.queue = append(g.queue, t)
 	return n
@@ -68,7 +74,11 @@ func (g *eqGen) emit(t types.Type) {
 	w("func %s(p string, a, b %s) {\n", name, ts)
 	defer w("}\n\n")
 	full := types.TypeString(t, nil)
-	switch full {
+	sw := full
+	if g.strict && !strings.HasSuffix(full, "datatype.PrimitiveType") {
+		sw = "" // no wire normalisations in strict mode
+	}
+	switch sw {
 	case "net.IP":
 		w("\tnd.Assert(bytes.Equal(verifNormIP(a), verifNormIP(b)), p)\n")
 		return
@@ -90,7 +100,7 @@ func (g *eqGen) emit(t types.Type) {
 	case *types.Basic:
 		w("\tnd.Assert(a == b, p)\n")
 	case *types.Pointer:
-		if nilEqualsZero[full] {
+		if nilEqualsZero[full] && !g.strict {
 			el := g.typeStr(u.Elem())
 			w("\tif a == nil {\n\t\ta = &%s{}\n\t}\n\tif b == nil {\n\t\tb = &%s{}\n\t}\n", el, el)
 		} else {
@@ -101,7 +111,7 @@ func (g *eqGen) emit(t types.Type) {
 		named, _ := t.(*types.Named)
 		for i := 0; i < u.NumFields(); i++ {
 			f := u.Field(i)
-			if named != nil && skipFields[named.Obj().Pkg().Path()+"."+named.Obj().Name()+"."+f.Name()] {
+			if !g.strict && named != nil && skipFields[named.Obj().Pkg().Path()+"."+named.Obj().Name()+"."+f.Name()] {
 				continue
 			}
 			if !f.Exported() && f.Pkg() != g.pkg {
@@ -117,6 +127,9 @@ func (g *eqGen) emit(t types.Type) {
 			w("\tfor i := range a {\n\t\t%s(p+\"[]\", a[i], b[i])\n\t}\n", g.fn(u.Elem()))
 		}
 	case *types.Slice:
+		if g.strict {
+			w("\tnd.Assert((a == nil) == (b == nil), p+\": nil-ness\")\n")
+		}
 		if b, ok := u.Elem().Underlying().(*types.Basic); ok && b.Kind() == types.Uint8 {
 			w("\tnd.Assert(bytes.Equal(a, b), p)\n")
 			return
@@ -124,6 +137,9 @@ func (g *eqGen) emit(t types.Type) {
 		w("\tif len(a) != len(b) {\n\t\tnd.Assert(false, p+\": length mismatch\")\n\t\treturn\n\t}\n")
 		w("\tfor i := range a {\n\t\t%s(p+\"[]\", a[i], b[i])\n\t}\n", g.fn(u.Elem()))
 	case *types.Map:
+		if g.strict {
+			w("\tnd.Assert((a == nil) == (b == nil), p+\": nil-ness\")\n")
+		}
 		w("\tif len(a) != len(b) {\n\t\tnd.Assert(false, p+\": length mismatch\")\n\t\treturn\n\t}\n")
 		w("\tfor k, av := range a {\n\t\tbv, ok := b[k]\n\t\tif !ok {\n\t\t\tnd.Assert(false, p+\": missing key\")\n\t\t\tcontinue\n\t\t}\n\t\t%s(p+\"[k]\", av, bv)\n\t}\n", g.fn(u.Elem()))
 	case *types.Interface:
